@@ -288,7 +288,7 @@ def run(run):
     from . import symast as SA
     jobs = [('expr',) + j for j in jobs]
     if quick:
-        ajobs = [('ast', k, (), 1, 2, dl, 10**7, True) for k in SA.COMPOUND if k != 'Comparison'] + [('ast', 'Flatten', (), 1, 3, dl, 10**7, True), ] + [('ast', 'Projection', ('Flatten', c2), 2, 2, dl, 30000, True) for c2 in ['Identity', 'Field', 'Index', 'Literal', 'Subexpr', 'Projection', 'Flatten', 'MultiList']]
+        ajobs = [('ast', k, (), 1, 2, dl, 10**7, True) for k in SA.COMPOUND if k != 'Comparison'] + [('ast', 'Flatten', (), 1, 3, dl, 10**7, True), ] + [('ast', 'Projection', ('Flatten', c2), 2, 2, dl, 30000, True) for c2 in ['Identity', 'Field', 'Index', 'Literal', 'Subexpr', 'Projection', 'Flatten']]
         ajobs = [('ast', 'Comparison', (c1, c2), 1, 1, dl, 10**7, True) for c1 in ['Identity', 'Field', 'Index', 'Literal'] for c2 in ['Identity', 'Field', 'Index', 'Literal']] + ajobs
     else:
         ajobs = []
